@@ -420,6 +420,13 @@ func (s *indexKVStore) GetValueFromMem(bucketID uint32, key []byte) (uint32, boo
 
 // FindValuesByRegexp returns values by regexp expr.
 func (s *indexKVStore) FindValuesByRegexp(bucketID uint32, rp *regexp.Regexp, ids []uint32) ([]uint32, error) {
+	// find from memory BEFORE taking the snapshot (like getOrCreateValue): Flush installs its new snapshot
+	// and then clears the immutable table, so a key is in the tables read here or in the snapshot taken below.
+	s.lock.RLock()
+	ids = s.findValuesByRegexp(s.mutable, bucketID, rp, ids)
+	ids = s.findValuesByRegexp(s.immutable, bucketID, rp, ids)
+	s.lock.RUnlock()
+
 	snapshot := s.getSnapshot()
 	verifhook.Yield("index.kvstore.regexp.afterSnapshot")
 
@@ -432,12 +439,6 @@ func (s *indexKVStore) FindValuesByRegexp(bucketID uint32, rp *regexp.Regexp, id
 		defer bucket.Release()
 		ids = bucket.FindValuesByRegexp(rp, ids)
 	}
-	// find from memory
-	s.lock.RLock()
-	defer s.lock.RUnlock()
-
-	ids = s.findValuesByRegexp(s.mutable, bucketID, rp, ids)
-	ids = s.findValuesByRegexp(s.immutable, bucketID, rp, ids)
 	return ids, nil
 }
 
@@ -490,6 +491,12 @@ func (s *indexKVStore) findValuesByLike(bucketID uint32,
 	prefix, subKey []byte,
 	check func(a, b []byte) bool, ids []uint32,
 ) ([]uint32, error) {
+	// memory tables before the snapshot, see FindValuesByRegexp
+	s.lock.RLock()
+	ids = s.findValuesByLikeFormMem(s.mutable, bucketID, subKey, check, ids)
+	ids = s.findValuesByLikeFormMem(s.immutable, bucketID, subKey, check, ids)
+	s.lock.RUnlock()
+
 	snapshot := s.getSnapshot()
 	verifhook.Yield("index.kvstore.like.afterSnapshot")
 	reader := v1.NewIndexKVReader(snapshot)
@@ -501,12 +508,6 @@ func (s *indexKVStore) findValuesByLike(bucketID uint32,
 		defer bucket.Release()
 		ids = bucket.FindValuesByLike(prefix, subKey, check, ids)
 	}
-
-	s.lock.RLock()
-	defer s.lock.RUnlock()
-
-	ids = s.findValuesByLikeFormMem(s.mutable, bucketID, subKey, check, ids)
-	ids = s.findValuesByLikeFormMem(s.immutable, bucketID, subKey, check, ids)
 	return ids, nil
 }
 
